@@ -163,8 +163,9 @@ def _partition_sets(ctx, fid):
 def r3(ctx):
     R = "C07-R3"
     ctx.rule(R, "durability classes from the partition closures: sync_file == sync_file_data == {Write, SetLen}; sync_dir == the seven directory-"
-                "entry kinds; disjoint; sync_dir's per-op match updates synced_entries in every directory-entry arm; a rename's `from` "
-                "removal depends only on from.parent() == dir and its `to` insertion only on to.parent() == dir; apply_op_to_persisted on every iteration")
+                "entry kinds; disjoint; sync_dir's per-op match updates synced_entries in every directory-entry arm; in the Rename arm "
+                "the durable entry moves as a whole (`from` is never retired without `to` becoming durable, nor `to` inserted while `from` stays); "
+                "apply_op_to_persisted on every iteration")
     sf = _partition_sets(ctx, FS + "sync_file")
     sd = _partition_sets(ctx, FS + "sync_file_data")
     dd = _partition_sets(ctx, FS + "sync_dir")
@@ -235,29 +236,30 @@ def r3(ctx):
                 FROM, TO = "field:turmoil_fs::PendingOp::from", "field:turmoil_fs::PendingOp::to"
                 ins_to = [(x, t) for x, t in se_ins if b.dominated_by_edge(x, e) and TO in Slicer(ctx.w).atoms(b, t["args"][1])]
                 rem_from = [(x, t) for x, t in se_rem if b.dominated_by_edge(x, e) and FROM in Slicer(ctx.w).atoms(b, t["args"][1])]
-                # guards inside the arm
-                gfrom, gto = [], []
-                for s2, te, fe, o in guards_on(b, lambda o: o["k"] == "call" and re.search(r"PartialEq>::eq$|PartialEq::eq$", o["t"]["f"])):
-                    if not b.dominated_by_edge(s2, e):
-                        continue
-                    at = Slicer(ctx.w).atoms(b, o["t"]["args"][0]) | Slicer(ctx.w).atoms(b, o["t"]["args"][1])
-                    if FROM in at and TO not in at:
-                        gfrom.append((te, fe))
-                    if TO in at and FROM not in at:
-                        gto.append((te, fe))
-                ok = bool(ins_to) and bool(rem_from) and bool(gfrom) and bool(gto)
-                if ok:
-                    for x, _ in rem_from:
-                        dep_from = any(b.dominated_by_any(x, edges=te) for te, fe in gfrom)
-                        dep_to = any(b.dominated_by_any(x, edges=te) or b.dominated_by_any(x, edges=fe) for te, fe in gto)
-                        ok = ok and dep_from and not dep_to
-                    for x, _ in ins_to:
-                        dep_to = any(b.dominated_by_any(x, edges=te) for te, fe in gto)
-                        dep_from = any(b.dominated_by_any(x, edges=te) or b.dominated_by_any(x, edges=fe) for te, fe in gfrom)
-                        ok = ok and dep_to and not dep_from
+                # the durable entry moves as a whole, like the inode does in the persisted image: on no path is `from` retired
+                # without `to` becoming durable, and on no path does `to` become durable while `from` stays
+                ends = nxt + b.exits(("return",))
+                ib = [x for x, _ in ins_to]
+                rb = [x for x, _ in rem_from]
+                p1 = bool(rem_from) and bool(ins_to)
+                for x, t in rem_from:
+                    start = t["t"] if t.get("t") is not None else x
+                    if not always_passes(b, ib, to_blocks=ends, frm=start):
+                        continue            # unconditional insert after the removal
+                    # `let was = set.swap_remove(from); if was || .. { set.insert(to) }`: the insert follows whenever something was removed
+                    tested = False
+                    for s2, te, fe, o in guards_on(b, lambda o: o["k"] == "call" and o.get("bb") == x):
+                        if te and all(not always_passes(b, ib, to_blocks=ends, frm=e2[1]) for e2 in te):
+                            tested = True
+                    p1 = p1 and tested
+                p2 = bool(ins_to) and all(x not in b.reachable(e[1], removed_blocks=rb) for x in ib)
+                ok = p1 and p2
                 ctx.inst(R, "sync_dir:arm:Rename", ok, b.term(e[1]).get("s", b.span),
-                         "rename: `from` retired iff from.parent() == dir, `to` made durable iff to.parent() == dir, independently" if ok else
-                         "sync_dir's Rename arm does not retire `from` and insert `to` under independent parent tests: after a same-directory rename the old name stays durable (or the new one is not)")
+                         "rename: the durable entry moves from the old name to the new one as a whole" if ok else
+                         "sync_dir's Rename arm can " + ("retire `from` without making `to` durable (sync of the source directory of a cross-directory rename: "
+                                                         "after a crash the file exists under neither name - synced data is lost)" if not p1 else "") +
+                         (" and " if not p1 and not p2 else "") +
+                         ("make `to` durable while `from` stays durable (a stale entry keeps an unrelated, never dir-synced file alive / the old name survives)" if not p2 else ""))
             else:
                 ctx.bad(R, "sync_dir:arm:Rename", b.span, "no Rename arm in sync_dir")
         ap = [bb for bb, t in b.calls(FS + "apply_op_to_persisted")]
@@ -399,7 +401,79 @@ def r7(ctx):
     ctx.floor(R, 6)
 
 
+def r9(ctx):
+    R = "C07-R9"
+    ctx.rule(R, "a sync never flushes a log record past an earlier, still pending record of the same name: sync_dir(d) selects records of "
+                "d's *entries* by `p.parent() == d` and d's own creation by `p == d`; when CreateDir is selected by its own path, the inverse "
+                "record RemoveDir must be selected by its own path too (and retire the durable entry) - otherwise `rmdir d; mkdir d; "
+                "sync_dir(d)` flushes the creation, leaves the older removal in the log, and the next sync of the parent durably removes the "
+                "directory that was re-created and synced")
+    b = ctx.body(R, FS + "sync_dir")
+    if not b:
+        return
+    own = {}
+    for bb, t in b.calls(re.compile(r"^std::iter::Iterator::partition$|Iterator>::partition$")):
+        for cid in closure_args(b, t):
+            cb = ctx.w.bodies.get(cid)
+            if not cb:
+                continue
+            for sbb, m, els, adt, pl in variant_edges(cb, lambda p: True):
+                if adt != OP:
+                    continue
+                for v, e in m.items():
+                    for x, t2 in cb.calls(re.compile(r"PartialEq>::eq$|^std::cmp::PartialEq::eq$")):
+                        if not cb.dominated_by_edge(x, e):
+                            continue
+                        at = Slicer(ctx.w).atoms(cb, t2["args"][0]) | Slicer(ctx.w).atoms(cb, t2["args"][1])
+                        if not any(a.endswith("Path::parent") for a in at if a.startswith("call:")):
+                            own[v] = t2["s"]
+    for a_, inv in (("CreateDir", "RemoveDir"),):
+        if a_ in own:
+            ok = inv in own
+            ctx.inst(R, f"sync_dir:own-path:{inv}", ok, own.get(inv, own[a_]), f"{a_} and {inv} of the directory itself are flushed together" if ok else
+                     f"sync_dir flushes the directory's own {a_} (`p == path`) but not an earlier pending {inv} of the same path: the stale removal stays in the "
+                     "log and later durably deletes the re-created, synced directory")
+    ctx.floor(R, 1)
+
+
+def r10(ctx):
+    R = "C07-R10"
+    ctx.rule(R, "a data sync finds the file's pending data whatever the file is called by now: pending Write / SetLen records are keyed by "
+                "the path string they were issued under and sync_file / sync_file_data select them by `p == path`; with a Rename still "
+                "pending between the write and the sync the names differ, so either the rename re-keys the pending data records "
+                "(the function that logs PendingOp::Rename rewrites Fs::pending) or the selection follows pending renames (the sync family "
+                "looks at PendingOp::Rename / calls a resolve_* / path_renamed_to helper). Neither -> sync_all returns Ok and the data is "
+                "not durable")
+    rn = [b for b in ctx.w.bodies.values() if b.crate == "turmoil_fs" and any(s["r"]["k"] == "agg" and s["r"].get("adt") == OP and s["r"].get("variant") == "Rename" for _, _, s in b.all_stmts())]
+    rekeys = False
+    for b in rn:
+        for fb in ctx.w.family(b.id):
+            for bb, t in fb.calls(re.compile(r"(iter_mut|for_each|retain_mut|drain)$")):
+                if t["args"] and FS + "pending" in _fields_of(fb, t["args"][0]):
+                    rekeys = True
+    follows = {}
+    for fid in (FS + "sync_file", FS + "sync_file_data"):
+        b = ctx.body(R, fid)
+        if not b:
+            continue
+        f = False
+        for fb in ctx.w.family(fid):
+            if any(True for _ in fb.calls(re.compile(r"turmoil_fs::Fs::(resolve_\w+|path_renamed_to)$"))):
+                f = True
+            for sbb, m, els, adt, pl in variant_edges(fb, lambda p: True):
+                if adt == OP and "Rename" in m:
+                    f = True
+        follows[fid] = f
+        ok = rekeys or f
+        ctx.inst(R, f"{fid.rsplit('::', 1)[1]}:rename-aware", ok, b.span, "pending data records follow the file through a pending rename" if ok else
+                 f"`{fid}` selects pending Write / SetLen records by the path it is called with and nothing re-keys them when the file is renamed: "
+                 "write /a; rename /a -> /b; sync_all(/b); crash leaves the old contents (the synced data is lost)")
+    ctx.floor(R, 2)
+
+
 def run(ctx):
+    r10(ctx)
+    r9(ctx)
     scan_rule(ctx, "C07")
     r7(ctx)
     r6(ctx)
